@@ -348,3 +348,18 @@ def frame_agreement(ctx, rid):
                "the snapshot that apply_rewrite splices comes from %s, not from the document text (Root::get_text): Diff ranges are absolute document offsets, "
                "a node's text() starts at the node (tree-sitter's root node skips leading whitespace), so every edit is shifted" % names, where=f.loc(st[3]))
     ctx.floor(rid, "Diffs snapshot sites", n_snap, 2)
+    # …and the text that is scanned is the text on disk: read_file hands out exactly what read_to_string returned (offsets reported
+    # by --json, by `sg test` and by the library refer to the file's bytes; a normalised copy — BOM stripped, line ends changed —
+    # shifts every range and is written back by --update-all in place of the original bytes)
+    rf = ctx.anchor(rid, r"^ast_grep::utils::read_file$")
+    if rf:
+        oks = []
+        for bi in sorted(rf.live_blocks):
+            for st in rf.blocks[bi]["s"]:
+                if st[0] == "A" and st[1][0] == 0 and not st[1][1] and st[2][0] == "agg" and st[2][1].get("variant") == "Ok":
+                    oks += [(ff, o) for x in st[2][2] for ff, o in ultimate_roots(prog, rf, x, {"branch", "with_context", "context", "map_err", "unwrap", "expect", "from_residual"})]
+        good = bool(oks) and all(o.kind == "call" and re.search(r"^std::fs::read_to_string$", o.ref.best) for ff, o in oks)
+        ctx.ob(rid, "read_file returns the file content unmodified", good,
+               "Ok(content) is the very String returned by std::fs::read_to_string" if good else
+               "read_file returns %s instead of the string read from disk: the scanned text is not the file's text, so byte ranges differ from the other front ends and --update-all rewrites bytes no edit touched" %
+               sorted({describe_origin(ff, o) for ff, o in oks}), where=rf.loc())
